@@ -93,6 +93,10 @@ public:
                    , "Image types aren't compatible."
                    );
 
+        // a file stored top-down is read through a flipped view of the *region*: a destination view may be
+        // larger, and flipping all of it put the region at its bottom
+        auto const region = subimage_view( dst_view, 0, 0, this->_settings._dim.x, this->_settings._dim.y );
+
         switch( this->_info._image_type )
         {
             case targa_image_type::_rgb:
@@ -115,7 +119,7 @@ public:
 
                         if( this->_info._screen_origin_bit )
                         {
-                            read_data< bgr8_view_t >( flipped_up_down_view( dst_view ) );
+                            read_data< bgr8_view_t >( flipped_up_down_view( region ) );
                         }
                         else
                         {
@@ -130,7 +134,7 @@ public:
 
                         if( this->_info._screen_origin_bit )
                         {
-                            read_data< bgra8_view_t >( flipped_up_down_view( dst_view ) );
+                            read_data< bgra8_view_t >( flipped_up_down_view( region ) );
                         }
                         else
                         {
@@ -166,7 +170,7 @@ public:
                     {
                         if( this->_info._screen_origin_bit )
                         {
-                            read_rle_data< bgr8_view_t >( flipped_up_down_view( dst_view ) );
+                            read_rle_data< bgr8_view_t >( flipped_up_down_view( region ) );
                         }
                         else
                         {
@@ -178,7 +182,7 @@ public:
                     {
                         if( this->_info._screen_origin_bit )
                         {
-                            read_rle_data< bgra8_view_t >( flipped_up_down_view( dst_view ) );
+                            read_rle_data< bgra8_view_t >( flipped_up_down_view( region ) );
                         }
                         else
                         {
